@@ -67,11 +67,19 @@ def actors(plan, r, nh, nact=None, suspend=True, bounds=True, prios=True, io=Tru
                     e.append('bound=%r' % r.choice([0.25e9, 0.5e9, 1e9]))
                 if prios and r.chance(0.2):
                     e.append('prio=%r' % r.choice([0.5, 2.0]))
+                nth = 0
                 if threads and r.chance(0.25):
-                    e.append('threads=%d' % r.randint(2, 3))
+                    nth = r.randint(2, 3)
+                    e.append('threads=%d' % nth)
                 ops.append(e)
                 mine.append(s)
                 execs.append(s)
+                if nth and prios and r.chance(0.4):
+                    # a priority update that leaves the share of a multi-thread exec unchanged (priority == thread count),
+                    # at once or a little later: nothing is recomputed, the planned completion must survive
+                    if r.chance(0.5):
+                        ops.append(['sleep', r.randint(1, 3) * 0.125])
+                    ops.append(['set_prio', s, float(nth)])
             elif c < 9 and comm and nh > 1:
                 o = 'h%d' % ((hi + 1 + r.below(nh - 1)) % nh)
                 if r.chance(0.5):
